@@ -114,7 +114,11 @@ func awaitGroupCase(r *rng.R) fw.Case {
 	return fw.Case{Input: sx.L(hooks, reqs, sx.I(r.Range(0, 2))).String(), Tags: tags}
 }
 
-const rule = "every fourth case an await group (2..3 calls awaited at one point, started there or earlier in the walk, one of them slow (15..30 ms), " +
+const rule = "every eleventh case an outlived-timeout class (a call with a `timeout` of 2..4 ms that returns at once and is awaited at a later moment / transition - a healthy probe taking 5x " +
+	"the timeout in between - or never: collected once with its own outcome however late, or still held at the end); every seventh case a written-weights class (3..7 call / task hooks at one moment of the run cycle, weights of both signs close together, " +
+	"every weight WRITTEN as a template author may write it: zero-padded, explicit sign, -0, +00, nothing at all for 0; the same integer in two writings; awaits at a later " +
+	"weight / a later moment written likewise), a seventh of the random walks with half of their weights re-written the same way; every seventh case a cross-pass class (see C10: calls " +
+	"triggered at a negative and awaited at a non-negative weight of one moment, or the reverse, with hooks triggered at the await weight); every fourth case an await group (2..3 calls awaited at one point, started there or earlier in the walk, one of them slow (15..30 ms), " +
 	"one of them failing critically / non-critically / none, in every registration order; a later weight of the same moment; teardown in half of them), " +
 	"every tenth a teardown class (see C10); otherwise random walks of 1..8 requests over 0..12 hooks (call and task hooks, weights in -300..300 with deliberate ties, 30% of call hooks " +
 	"await somewhere else: later weight / other moment / never / earlier weight; DESTROY hooks; teardowns); non-trivial = at least two hooks share a " +
@@ -127,11 +131,11 @@ func nontrivial(input, obs string) bool {
 	}
 	hs := in.At(0).List
 	for i, a := range hs {
-		if a.At(3).Str() != a.At(5).Str() || a.At(4).Int() != a.At(6).Int() {
+		if a.At(3).Str() != a.At(5).Str() || weightOf(a.At(4)) != weightOf(a.At(6)) {
 			return true
 		}
 		for _, b := range hs[i+1:] {
-			if a.At(3).Str() == b.At(3).Str() && a.At(4).Int() != b.At(4).Int() {
+			if a.At(3).Str() == b.At(3).Str() && weightOf(a.At(4)) != weightOf(b.At(4)) {
 				return true
 			}
 		}
